@@ -3470,6 +3470,34 @@ impl<'a, R: FileManager> FrontendCtx<'a, R> {
             f: file_name.clone(),
             s: t.span,
         };
+        // a conditional type whose checked type is a naked type parameter distributes over a union
+        // bound to that parameter: F<A | B> is F<A> | F<B>
+        if let TsType::TsTypeRef(r) = &*t.check_type
+            && r.type_params.is_none()
+            && let TsEntityName::Ident(id) = &r.type_name
+            && let Some((name, bound)) = self
+                .type_application_stack
+                .iter()
+                .rev()
+                .find(|(n, _)| id.sym == *n)
+                .cloned()
+            && let RuntypeKind::AnyOf(members) = &bound.kind
+        {
+            let mut out = vec![];
+            for m in members {
+                self.type_application_stack.push((name.clone(), m.clone()));
+                let r = self.convert_conditional_type(t, file_name.clone());
+                self.type_application_stack.pop();
+                let r = r?;
+                if !matches!(r.kind, RuntypeKind::Never) {
+                    out.push(r);
+                }
+            }
+            return Ok(match out.len() {
+                0 => Runtype::never(),
+                _ => Runtype::any_of(out),
+            });
+        }
         let check_type_schema = self.extract_type(&t.check_type, file_name.clone())?;
         let extends_type_schema = self.extract_type(&t.extends_type, file_name.clone())?;
 
